@@ -635,7 +635,7 @@ func (h *Hook) purgeQueue() {
 	h.db.Update(func(tx *buntdb.Tx) error {
 		var keys []string
 		tx.AscendGreaterOrEqual("hooks", h.query, func(key, val string) bool {
-			if strings.HasPrefix(key, hookLogPrefix) &&
+			if hookLogKeyIsFor(key, h.Name) &&
 				queuedName == gjson.Get(val, "hook").String() {
 				keys = append(keys, key)
 			}
@@ -694,7 +694,7 @@ func (h *Hook) proc() (ok bool) {
 		// get keys and vals
 		err := tx.AscendGreaterOrEqual("hooks",
 			h.query, func(key, val string) bool {
-				if strings.HasPrefix(key, hookLogPrefix) {
+				if hookLogKeyIsFor(key, h.Name) {
 					// Verify this hooks name matches the one in the notif
 					if queuedName == gjson.Get(val, "hook").String() {
 						keys = append(keys, key)
@@ -734,7 +734,7 @@ func (h *Hook) proc() (ok bool) {
 	// send each val. on failure reinsert that one and all of the following
 	for i, key := range keys {
 		val := vals[i]
-		idx := stringToUint64(key[len(hookLogPrefix):])
+		idx := hookLogKeyIdx(key)
 		var sent bool
 		for _, endpoint := range h.Endpoints {
 			err := h.epm.Send(endpoint, val)
